@@ -271,6 +271,6 @@ PROP = dict(
 )
 META = dict(
     technique="Lean 4 proof over a model of wscreen.go + regenerated tables/lock skeletons (translator) + differential run of the real js/wasm backend under Node against the model + page-grid oracle",
-    text="The package and a harness are compiled with GOOS=js GOARCH=wasm (a compile error is the finding wasm-build). Under Node a recording stand-in for webfiles/tcell.js logs every drawCell/clearScreen/show/resize/cursor call; draw histories, every key name of the table x 16 modifier sets, every mouse button code x enabled-flag set, paste/focus and every order of Suspend/Resume/SetSize/Fini up to length 4 (plus longer random ones) are executed with an event-loop deadlock detector. The oracle replays the calls into a page grid and compares it with GetContent (text incl. combining, 24-bit colours with the xterm values of the 16 basic colours, attribute bits, underline), checks that only changed cells are touched, that events carry the expected key/button/modifiers and that mouse reports are honoured only for enabled modes. The same cases run on the Lean model (Tcell.Model.WScreen, lock behaviour from the regenerated skeleton) and are diffed. Theorems: page_frame, page_faithful (history induction reusing the C08 ghost), key/mouse translation over the regenerated table, soundness of the lock-balance checker (lock_balanced), lock_balanced_tree (kernel evaluation: EVERY wScreen method of the regenerated skeleton, Suspend/Resume included, is balanced; every locking callee is a balanced method) and lifecycle_no_self_deadlock_tree (every order and length of Suspend/Resume/SetSize/Fini on the regenerated skeleton returns with the mutex free).",
+    text="post_event_waits_tree / callbacks_have_no_select_tree (kernel verdict on the regenerated select facts of wscreen.go): postEvent, the one place where a JavaScript callback hands its event to the application, is a select without a default clause — a callback waits for room in the event queue, it never discards its event; bursts of callbacks in one JS task are also run (op burst; under the js/wasm runtime a parked poller is scheduled after every callback, so the running check alone cannot fill the queue — the theorem is what decides this clause). The package and a harness are compiled with GOOS=js GOARCH=wasm (a compile error is the finding wasm-build). Under Node a recording stand-in for webfiles/tcell.js logs every drawCell/clearScreen/show/resize/cursor call; draw histories, every key name of the table x 16 modifier sets, every mouse button code x enabled-flag set, paste/focus and every order of Suspend/Resume/SetSize/Fini up to length 4 (plus longer random ones) are executed with an event-loop deadlock detector. The oracle replays the calls into a page grid and compares it with GetContent (text incl. combining, 24-bit colours with the xterm values of the 16 basic colours, attribute bits, underline), checks that only changed cells are touched, that events carry the expected key/button/modifiers and that mouse reports are honoured only for enabled modes. The same cases run on the Lean model (Tcell.Model.WScreen, lock behaviour from the regenerated skeleton) and are diffed. Theorems: page_frame, page_faithful (history induction reusing the C08 ghost), key/mouse translation over the regenerated table, soundness of the lock-balance checker (lock_balanced), lock_balanced_tree (kernel evaluation: EVERY wScreen method of the regenerated skeleton, Suspend/Resume included, is balanced; every locking callee is a balanced method) and lifecycle_no_self_deadlock_tree (every order and length of Suspend/Resume/SetSize/Fini on the regenerated skeleton returns with the mutex free).",
     note="Trusted: Lean kernel; Go wasm toolchain + Node; the recording stub; the go/ast translator. The pinned tree failed to build for js/wasm and Suspend/Resume leaked the mutex: both findings are fixed in /repo (0e2ad2d, 2cbae24) and the tree-wide lock theorems are now stated without exception.",
 )
